@@ -14,7 +14,8 @@ import numpy as np
 from verifsim import core, harness, sched
 
 PROP = "C23"
-STYPES = ["sym", "float", "list", "ndarray", "ndarray_nc", "ndarray_f", "ndarray_0d", "ndarray_mixed", "field", "multifield"]
+STYPES = ["sym", "float", "list", "ndarray", "ndarray_nc", "ndarray_f", "ndarray_0d", "ndarray_mixed", "field", "multifield",
+          "tuple", "str", "ndarray_empty", "pyint"]
 
 
 class Sym:
@@ -79,6 +80,14 @@ def summands(n, stype):
         return out
     if stype == "ndarray_0d":
         return [np.array(rng.uniform(0.5, 1.5) * 10.0 ** rng.integers(-9, 9)) for _ in range(n)]
+    if stype == "tuple":
+        return [(i, f"t{i}") for i in range(n)]          # concatenation, like the lists the driver gathers reports with
+    if stype == "str":
+        return [f"<{i}>" for i in range(n)]
+    if stype == "pyint":
+        return [int(rng.integers(1, 2**40)) * 3 ** int(rng.integers(0, 60)) for _ in range(n)]   # exact big integers
+    if stype == "ndarray_empty":
+        return [np.zeros((0, 3)) for _ in range(n)]       # zero-size buffers through Send/Recv/Bcast
     if stype == "ndarray_mixed":
         # summands of different numpy dtypes: every partial sum has numpy's promoted dtype
         dts = [np.float64, np.float32, np.int64, np.complex128, np.float32, np.float64, np.int32, np.float32]
